@@ -596,6 +596,7 @@ func TestReplay(t *testing.T) {
 			}
 			return check(&p)
 		},
+		"redef": replayRedef,
 		"arity": func(raw json.RawMessage) *ev.Failure {
 			var c ErrCase
 			json.Unmarshal(raw, &c)
